@@ -15,6 +15,10 @@ def parseTEv (s : String) : Option TEv :=
   let cs := if bad then cs.dropLast else cs
   match cs with
   | 'm' :: r => (parseNat r).map fun (n, _) => .mark n
+  | 'p' :: r => (parseNat r).bind fun (p, r') => match r' with
+      | ['+'] => some (.pois p true)
+      | ['-'] => some (.pois p false)
+      | _ => none
   | 'E' :: r => (parseNat r).map fun (n, _) => .envRel n
   | 'w' :: r => (parseNat r).bind fun (x, r') => match r' with
       | '=' :: r'' => (parseNat r'').map fun (v, _) => .acc x true v bad
@@ -88,6 +92,7 @@ def holdStep (s : HSt) : TEv → Except String HSt
       | .panic => .ok { s with held := s.held.erase (x, m), stuck := (x, m) :: s.stuck, faulted := x :: s.faulted }
       | _ => .ok { s with held := s.held.erase (x, m) }
   | .envRel _ => .ok s
+  | .pois _ _ => .ok s
   | .acc x w _ bad =>
     if bad then .error s!"access to {x} without a suitable hold (audit)" else
     if w then
@@ -389,6 +394,22 @@ def checkC17 (_c : Case) (t : Transcript) : Option String := Id.run do
   return none
 
 mutual
+/-- the leaf locks below each `Poisonable` of a shape -/
+def leavesUnder : Shape → List (PoisonId × List LockId)
+  | .mutex _ => []
+  | .rwlock _ => []
+  | .seq ss => leavesUnderL ss
+  | .poisonable p s => (p, declLeaves s) :: leavesUnder s
+  | .boxed s => leavesUnder s
+  | .refc s => leavesUnder s
+  | .retry s => leavesUnder s
+  | .owned _ s => leavesUnder s
+def leavesUnderL : List Shape → List (PoisonId × List LockId)
+  | [] => []
+  | s :: ss => leavesUnder s ++ leavesUnderL ss
+end
+
+mutual
 /-- the lockable units reachable through a shape, independently of addresses: leaf locks and
 owned collections (which present themselves as one unit) -/
 def unitIds : Shape → List (Bool × Nat)
@@ -491,6 +512,7 @@ def checkC10 (c : Case) (t : Transcript) : Option String := Id.run do
   let segs := segments t.evs
   let mut may : List PoisonId := []
   let mut must : List (PoisonId × String) := []
+  let mut cur : List PoisonId := []          -- flags currently observed set (sampled at raw operations)
   let mut i := 0
   for s in c.prog do
     let seg := segs.getD i []
@@ -514,6 +536,28 @@ def checkC10 (c : Case) (t : Transcript) : Option String := Id.run do
         if userPanic || fault then
           for p in ps do
             if !may.contains p then may := p :: may
+        -- ordering: a wrapper that must be poisoned by this panic has to be poisoned *before* the
+        -- locks below it are released (otherwise a waiter can acquire in between and see Ok).
+        -- Only where the code poisons at all (guards, and a Poisonable's own scoped calls: not D5).
+        if userPanic && ses.mode == .excl then
+          let isScopedS := ses.api == .scoped || ses.api == .scopedTry
+          let before := (seg.takeWhile fun e => e != .mark mkUserPanic)
+          let after := (seg.dropWhile fun e => e != .mark mkUserPanic)
+          for (p, ls) in leavesUnder S do
+            if !isScopedS || isPoisonableTop S == some p then
+              let already := cur.contains p || before.any fun e => e == .pois p true
+              let idxP := after.findIdx? fun e => e == .pois p true
+              let idxU := after.findIdx? fun e => match e with
+                | .raw k x .ok _ => !kindIsAcq k && ls.contains x
+                | _ => false
+              if !already then
+                match idxP, idxU with
+                | some ip, some iu =>
+                  if iu < ip then
+                    return some s!"statement {i}: Poisonable {p} was poisoned only after a lock below it had been released"
+                | none, some _ =>
+                  return some s!"statement {i}: Poisonable {p} was not yet poisoned when the locks below it were released after the panic"
+                | _, _ => pure ()
         if userPanic && ses.mode == .excl then
           let isScoped := ses.api == .scoped || ses.api == .scopedTry
           let why := if isScoped && (isPoisonableTop S).isNone then "panic in the scoped closure of a collection containing it"
@@ -524,6 +568,7 @@ def checkC10 (c : Case) (t : Transcript) : Option String := Id.run do
       match isPoisonableTop (C.shape cc) with
       | some p =>
         let observed := out == mkOutPoisoned
+        cur := if observed then (if cur.contains p then cur else p :: cur) else cur.filter (· != p)
         if observed && !may.contains p then
           return some s!"statement {i}: Poisonable {p} reports poisoned although no panic happened during a hold on it"
         if !observed then
@@ -536,8 +581,14 @@ def checkC10 (c : Case) (t : Transcript) : Option String := Id.run do
       | some p =>
         may := may.filter (· != p)
         must := must.filter (·.1 != p)
+        cur := cur.filter (· != p)
       | none => pure ()
     | _ => pure ()
+    for e in seg do
+      match e with
+      | .pois p true => cur := if cur.contains p then cur else p :: cur
+      | .pois p false => cur := cur.filter (· != p)
+      | _ => pure ()
   if t.terminal == "done" then
     let flags := t.poison.toList
     for p in List.range flags.length do
